@@ -25,9 +25,9 @@ RULE = (
     "live objects (A, B, C) from {(sqA, triA, bar) int, (hollow, dia, U) int, (triA, sqB, bar) float, (circle c8, fsq, ftri) "
     "curved, and three sets in which A (a square / two squares / a hollow square) starts 100 units away and move(A) brings it "
     "across B and C}; event menu: A|B, A&B, A-B, B-A, A^B, B in A, float(A.jordans[0]), A==B, A.move(1,1), A.scale(2,2), "
-    "A.rotate(pi/2); all histories of depth <= 2 (thorough 3) explored breadth-first on the real code, states "
+    "A.rotate(pi/2), curve(A).intersection(curve(B)); all histories of depth <= 2 (thorough 3) explored breadth-first on the real code, states "
     "de-duplicated on the full representation incl. cached lengths and subdivision; in every state the battery (area, "
-    "moment, signed length and orientation of every curve, box, membership of a 5x5 grid, A==B, B in A, A in B, X|C, "
+    "moment, signed length and orientation of every curve, box, membership of a 5x5 grid, curve-curve intersections, A==B, B in A, A in B, X|C, "
     "X&C, X-C, X^C) is asked of the live objects and of freshly rebuilt copies and must agree (exactly for rational "
     "polygons and booleans/kinds, rel 1e-9 for floats; orientation sign exactly, length magnitude rel 1e-9), and asking "
     "twice gives the same answers. Configuration axis: 60 programs in fresh processes with PYTHONHASHSEED 0/1/4242/"
@@ -39,7 +39,7 @@ ASSUMPTIONS = [
 ]
 CASE_TIMEOUT = 3000
 
-EVENTS = ["A|B", "A&B", "A-B", "B-A", "A^B", "B in A", "len(A)", "A==B", "move(A)", "scale(A)", "rotate(A)"]
+EVENTS = ["A|B", "A&B", "A-B", "B-A", "A^B", "B in A", "len(A)", "A==B", "move(A)", "scale(A)", "rotate(A)", "jA&jB"]
 
 OPERANDS = {
     "poly-int": (["L", "P.sqA#int"], ["L", "P.triA#int"], ["L", "P.bar#int"]),
@@ -91,6 +91,8 @@ def apply_event(ev, A, B, name=None):
         return [float(j) for j in A.jordans]
     if ev == "A==B":
         return A == B
+    if ev == "jA&jB":
+        return [ja.intersection(jb) for ja in A.jordans for jb in B.jordans]
     if ev == "move(A)":
         return A.move(*mv)
     if ev == "scale(A)":
@@ -153,6 +155,24 @@ def battery(A, B, C, frames, small=False):
                 p = (float(bx[0] + (bx[2] - bx[0]) * F(2 * i - 1, 6) + size / 977), float(bx[1] + (bx[3] - bx[1]) * F(2 * j2 - 1, 6) + size / 1013))
                 grid.append(p)
         out.append((nm + ".grid", outcome(lambda: tuple(bool(p in X) for p in grid))))
+    def inter_obs():
+        # the (segment, parameter) encoding legitimately moves with the subdivision; the
+        # crossing POINTS are the geometry: compared as a sorted set, rounded to 1e-7*size
+        bx, size = frames["U"]
+        q = float(size) * 1e-7
+        res = []
+        for ja in A.jordans:
+            for jb in list(B.jordans) + list(C.jordans):
+                pts = set()
+                for a, b, u, v in ja.intersection(jb):
+                    if u is None:
+                        continue
+                    p = ja.segments[a](u)
+                    pts.add((round(float(p[0]) / q), round(float(p[1]) / q)))
+                res.append(tuple(sorted(pts)))
+        return tuple(res)
+
+    out.append(("curves(A) x curves(B,C)", outcome(inter_obs)))
     out.append(("A==B", outcome(lambda: A == B)))
     out.append(("B in A", outcome(lambda: B in A)))
     out.append(("A in B", outcome(lambda: A in B)))
